@@ -106,15 +106,20 @@ def protect_roundtrip(label: str) -> bool:
     return got == [("label", label)]
 
 
-def expected_rest(is_job, critical, forever):
-    st = []
-    if is_job:
-        st.append("rounded")
-    if forever:
-        st.append("dashed")
-    before = 'style="%s",' % ",".join(st)
-    after = ',shape="box"' + (',color="red",penwidth="2"' if critical else ',penwidth="0.5"')
-    return before, after
+REF = "x"
+
+
+def expected_rest(obj_factory):
+    """the attribute text around the label, taken from the same object with the reference label 'x' (concrete):
+    the check is about quoting, it must not depend on cosmetic choices (colours, widths, attribute order)"""
+    ref = obj_factory(REF)
+    ref._sched_id = "7"
+    text = repr(ref.dot_style())
+    marker = 'label="7: ' + REF + '"'
+    k = text.find(marker)
+    if k < 0:
+        return None
+    return text[:k], text[k + len(marker):]
 
 
 def job_style(label: str, critical: bool, forever: bool) -> bool:
@@ -125,8 +130,10 @@ def job_style(label: str, critical: bool, forever: bool) -> bool:
     """
     job = _J(label=label, critical=critical, forever=forever)
     job._sched_id = "7"
-    before, after = expected_rest(True, critical, forever)
-    return check_attr_text(repr(job.dot_style()), before, "7: " + label, after)
+    rest = expected_rest(lambda lab: _J(label=lab, critical=critical, forever=forever))
+    if rest is None:
+        return False
+    return check_attr_text(repr(job.dot_style()), rest[0], "7: " + label, rest[1])
 
 
 def cluster_style(label: str, critical: bool, forever: bool) -> bool:
@@ -137,8 +144,10 @@ def cluster_style(label: str, critical: bool, forever: bool) -> bool:
     """
     sched = Scheduler(label=label, critical=critical, forever=forever)
     sched._sched_id = "7"
-    before, after = expected_rest(False, critical, forever)
-    return check_attr_text(repr(sched.dot_style()), before, "7: " + label, after)
+    rest = expected_rest(lambda lab: Scheduler(label=lab, critical=critical, forever=forever))
+    if rest is None:
+        return False
+    return check_attr_text(repr(sched.dot_style()), rest[0], "7: " + label, rest[1])
 
 
 # reachability twins: the negated postcondition must be refuted by CrossHair (a passing input exists), which
